@@ -75,6 +75,7 @@ static inline int cur_vt() { int v = sched_logical(); return v < 0 ? 0 : v; }
 
 // returns errno to inject, or 0
 static int fault_check(int kind) {
+  sched_os_point(kind);      // another thread may run between the allocator's decision and the OS call taking effect
   int vt = cur_vt(); int op = g_ctx_op[vt & 31];
   if (g_persist && (g_persist_kind == -1 || g_persist_kind == kind)) { g_faults_fired++; return g_persist_err; }
   for (size_t i = 0; i < g_faults.size(); i++) {
